@@ -67,6 +67,23 @@ func genuine(kind byte, v seen, ctx string, now int64) bool {
 	return true
 }
 
+// genuineNow: like genuine, but an expiry at the current second still counts (used where the question is
+// "could a holder of the secret have made this and is it not yet expired", not "must it be accepted").
+func genuineNow(kind byte, v seen, ctx string, now int64) bool {
+	if v.class != 'T' || !isHS(v) || !v.sig[kindIdx[kind]] {
+		return false
+	}
+	cl := v.claims
+	if cl[2].kind != 'n' || cl[2].fl < now {
+		return false
+	}
+	if kind == 'e' {
+		c, ok := strClaim(cl[4])
+		return ok && c == ctx
+	}
+	return true
+}
+
 // judgeVerify: `accepted` is whether the implementation took the string as a token of `kind`
 // (for the user it returned).
 func judgeVerify(o *outcome, fn string, kind byte, raw string, v seen, b *builder, accepted bool, user, eml, ctx string, checkExp bool, now int64) {
